@@ -46,6 +46,11 @@ impl BlindSignatureContextTrait for BlindSignatureContext {
                 points.push(pk.y[i]);
             }
         }
+        // one response per generator that is not covered by an issuer-known claim;
+        // sum_of_products silently stops at the shorter slice
+        if self.proofs.len() != points.len() {
+            return Ok(false);
+        }
         points.push(self.commitment);
 
         let mut scalars = self.proofs.clone();
